@@ -121,6 +121,11 @@ fn check(id: &str, tier: Tier) -> i32 {
     };
     let static_id: &'static str = ent.0;
     engine::start_watchdog(static_id);
+    // wall budget of the graph explorations (see engine.rs): generous multiples of the normal run times
+    engine::set_explore_budget(match std::env::var("VERIF_EXPLORE_BUDGET_S").ok().and_then(|s| s.parse::<u64>().ok()) {
+        Some(s) => s,
+        None => if tier == Tier::Thorough { 3000 } else { 300 },
+    });
     let t0 = Instant::now();
     let run = ent.1;
     let rep: Report = match engine::guarded(|| run(tier)) {
@@ -196,7 +201,8 @@ fn check(id: &str, tier: Tier) -> i32 {
         machinery_fail = true;
     }
     for (g, ok) in &rep.guards {
-        if !ok {
+        // (a run whose explorations were cut short by the wall budget cannot be expected to reach every guard)
+        if !ok && !engine::explore_budget_exhausted() {
             eprintln!("machinery: vacuity guard not reached: {}", g);
             machinery_fail = true;
         }
@@ -206,6 +212,12 @@ fn check(id: &str, tier: Tier) -> i32 {
         machinery_fail = true;
     }
 
+    let mut rep = rep;
+    if engine::explore_budget_exhausted() && !rep.caps_hit.is_empty() {
+        let n = rep.caps_hit.len();
+        rep.caps_hit.truncate(5);
+        rep.caps_hit.insert(0, format!("wall budget of the graph explorations used up: {} graphs cut short (state identity includes the object's full internal state; bookkeeping that differs per call sequence keeps graphs from closing)", n));
+    }
     let exhaustive = rep.caps_hit.is_empty();
     let mut coverage = serde_json::Map::new();
     coverage.insert("states".into(), json!(rep.states.max(1)));
